@@ -776,11 +776,18 @@ func (m *Machine) symSelect(fr *frame, in *ssa.IndexAddr, x, idx Value, signed b
 	}
 	// bounds: one fork
 	iw := iv.T.W
-	inRange := tBin("bvult", 0, iv.T, bvConst(uint64(len(elems)), iw))
-	if signed {
+	var inRange *Term
+	switch {
+	case !signed && iw < 64 && uint64(len(elems)) >= uint64(1)<<uint(iw):
+		// every value of the index type is in range (a byte indexing a 256-entry table)
+	case !signed:
+		inRange = tBin("bvult", 0, iv.T, bvConst(uint64(len(elems)), iw))
+	case iw < 64 && uint64(len(elems)) >= uint64(1)<<uint(iw-1):
+		inRange = tBin("bvsge", 0, iv.T, bvConst(0, iw))
+	default:
 		inRange = tAnd(tBin("bvsge", 0, iv.T, bvConst(0, iw)), tBin("bvslt", 0, iv.T, bvConst(uint64(len(elems)), iw)))
 	}
-	if !m.branchIn(fr, mkBool(inRange)) {
+	if inRange != nil && !m.branchIn(fr, mkBool(inRange)) {
 		m.fault(fr, in, fmt.Sprintf("index out of range [symbolic] with length %d", len(elems)))
 	}
 	var out Value
